@@ -505,6 +505,22 @@ func c07H2Dispatch(c *Ctx, rule string) {
 				c.Check(rule, fmt.Sprintf("%s:loop-exit-about-the-bytes#%d", fk, ord), nearestPos(b.Instrs[len(b.Instrs)-1]), ok, "the loop is left on a condition over Decode's own error result", "the decode loop can stop for a reason other than the decoder's verdict on the bytes (need more data / cannot parse): complete frames that follow in the same read stay in the buffer until more bytes arrive, so what is extracted depends on how the byte stream was cut into reads")
 			}
 		}
+		// one stream-level context per frame (the xprotocol clause, C07-8): Get() between two Decode calls, and Decode gets it
+		get := callsIn(fn, false, func(cc *ssa.CallCommon) bool { return methodName(cc) == "Get" && len(cc.Args) > 0 && strings.HasSuffix(typeName(cc.Args[0].Type()), "ContextManager") })
+		isGet := func(in ssa.Instruction) bool {
+			for _, gc := range get {
+				if gc.Instr == in {
+					return true
+				}
+			}
+			return false
+		}
+		freshCtx := len(get) > 0 && existsPath(fn, d, func(in ssa.Instruction) bool { return in == d }, isGet) == nil
+		if dargs := argsOf(d.(ssa.CallInstruction).Common()); len(dargs) == 0 || !isGet(instrOf(dargs[0])) {
+			freshCtx = false
+		}
+		n++
+		c.Check(rule, fk+":fresh-context-per-frame", d.Pos(), freshCtx, "cm.Get() is executed for every frame and its result is what Decode receives", "a frame can be decoded with the stream context of the previous frame: per-context buffers and stream objects of the previous frame are overwritten")
 		// a return from inside the loop is an exit as well
 		for _, in := range instrsWhere(fn, isReturn) {
 			if !body[in.Block()] {
